@@ -207,11 +207,11 @@ def step (st : WSt) (ws : List String) : Option (WSt × String) :=
             let tn := if isUser t then p2pKey a.uid t else t
             let tagArg := kvGet m "tags"
             if isUser t ∧ t = a.uid then some (c0.emit a.sid (ctrl 403 tn)) else
-            some (c0.opSetTags a tn (if tagArg = "" then [] else tagArg.splitOn ",") (isUser t))
+            some (c0.opSetTags a tn (if tagArg = "" then [] else tagArg.splitOn ",") (isUser t) viaChn)
           | "get", t :: "tags" :: _ =>
             let tn := if isUser t then p2pKey a.uid t else t
             if isUser t ∧ t = a.uid then some (c0.emit a.sid (ctrl 403 tn)) else
-            some (c0.opGetTags a tn (isUser t))
+            some (c0.opGetTags a tn (isUser t) viaChn)
           | "get", t :: what :: _ =>
             let since := (decInt (kvGet m "since")).getD 0
             let before := (decInt (kvGet m "before")).getD 0
